@@ -218,6 +218,38 @@ where
                 // bit 4*limit: bare value, +1: decode_all, +2: inside a Vec
                 Out::V(differ)
             });
+            // the codec's container decoders reach a value through `Decode::decode_into` / `skip` / `encoded_fixed_size`
+            // rather than `decode`: boxes, reference-counted pointers, arrays, options, nested records
+            step!(st, outs, 41, "decode_box", Out::O(<Box<F>>::decode(&mut &x.encode()[..]).ok().map(|v| v.raw())));
+            step!(st, outs, 42, "decode_rc", Out::O(<std::rc::Rc<F>>::decode(&mut &x.encode()[..]).ok().map(|v| v.raw())));
+            step!(st, outs, 43, "decode_arc", Out::O(<std::sync::Arc<F>>::decode(&mut &x.encode()[..]).ok().map(|v| v.raw())));
+            step!(st, outs, 44, "decode_array", {
+                let e = [x, x, x].encode();
+                match <[F; 3]>::decode(&mut Stream { data: &e, pos: 0 }) {
+                    Ok(v) if v[0].raw() == v[1].raw() && v[1].raw() == v[2].raw() => Out::O(Some(v[0].raw())),
+                    _ => Out::O(None),
+                }
+            });
+            step!(st, outs, 45, "encode_array", Out::Y([x, x, x].encode()));
+            step!(st, outs, 46, "decode_option", Out::O(<Option<F>>::decode(&mut &Some(x).encode()[..]).ok().flatten().map(|v| v.raw())));
+            step!(st, outs, 47, "decode_boxed_record", Out::O(<Box<(u8, [F; 2], u16)>>::decode(&mut &(9u8, [x, x], 0x1234u16).encode()[..]).ok().and_then(|v| if v.0 == 9 && v.2 == 0x1234 && v.1[0].raw() == v.1[1].raw() { Some(v.1[0].raw()) } else { None })));
+            step!(st, outs, 48, "skip_then_decode", {
+                // Decode::skip over the first value, then decode the second
+                let mut e = F::from_raw(!a).encode();
+                e.extend_from_slice(&x.encode());
+                let mut inp = &e[..];
+                match F::skip(&mut inp) {
+                    Ok(()) => Out::O(F::decode(&mut inp).ok().map(|v| v.raw())),
+                    Err(_) => Out::O(None),
+                }
+            });
+            step!(st, outs, 49, "encoded_fixed_size", Out::O(F::encoded_fixed_size().map(|n| n as u128)));
+            step!(st, outs, 50, "encode_to", {
+                let mut v: Vec<u8> = vec![0xAA];
+                x.encode_to(&mut v);
+                Out::Y(v)
+            });
+            step!(st, outs, 51, "size_hint", Out::V(x.size_hint() as u128));
             // the serde data model itself, recorded by a serializer that answers is_human_readable() either way: one record
             // with the single field `bits` holding the integer; and played back through a self-describing deserializer
             for (k, human) in [(0usize, true), (1usize, false)] {
